@@ -119,3 +119,24 @@ func ZZC05CLI() {
 	zzReach("cli-rejected")
 	zzWitness("end")
 }
+
+// ZZC08CLISeed: `evy run --rand-seed s` twice in one process with the same
+// non-zero symbolic seed prints the same text (the command installs the seeded
+// source for every non-zero seed; zero means "pick a seed").
+func ZZC08CLISeed() {
+	seed := int64(zzInt("seed", -1<<40, 1<<40))
+	zzAssume(seed != 0)
+	path := zzFSPath("r.evy")
+	zzFSPut(path, "print (rand 1000) (rand 6) (rand1)\nfor range 2\n    print (rand 10)\nend\n", 0o644)
+	run := func() string {
+		c := &runCmd{Source: path, RandSeed: seed}
+		err := c.Run()
+		zzAssert(err == nil, "C08 cli seed: the program runs")
+		return zzStdout()
+	}
+	o1 := run()
+	o12 := run() // stdout accumulates: the second run's text is what follows the first's
+	zzAssert(o12 == o1+o1, "C08 cli seed: two runs with the same --rand-seed print the same random numbers")
+	zzReach("cliseed-ok")
+	zzWitness("end")
+}
